@@ -64,7 +64,8 @@ ENDS = ["commit", "commit", "commit", "commit", "abort", "crash", "crash2pc"]
 
 
 def plan(rng, tier):
-    cfg = common.draw_cfg(rng, p_stored=1.0, p_default_sizes=0.06)
+    cfg = common.draw_cfg(rng, p_stored=1.0, p_default_sizes=0.06,
+                          p_sub=0.1)
     cfg["stored"] = True
     cfg["reader_impl"] = rng.choice(["c", "py"]) if rng.random() < 0.3 \
         else cfg["impl"]
